@@ -344,6 +344,32 @@ def run_case(case, pid, kf_defs=()):
         _mem_release(gb)
 
 
+def _stop_on_fail(case, wd, kf_defs):
+    """one counterexample of a case whose full query timed out; returns a result record or None"""
+    wd2 = os.path.join(wd, "sof")
+    os.makedirs(wd2, exist_ok=True)
+    gb, err = build_goto(case, wd2, tuple(kf_defs) + ("-DNO_WITNESS",))
+    if err:
+        return None
+    cmd = cbmc_cmd(case, gb) + ["--stop-on-fail"]
+    r = sh(cmd, timeout=min(case.timeout, 1200), mem_gb=case.mem_gb)
+    if r["timeout"]:
+        return None
+    try:
+        data = json.loads(r["out"])
+    except Exception:
+        return None
+    for m in data:
+        if isinstance(m, dict) and "trace" in m and "property" in m and str(m.get("status", "")).lower().startswith("fail"):
+            loc = {}
+            for st in reversed(m["trace"]):
+                if st.get("stepType") == "failure":
+                    loc = st.get("sourceLocation", {})
+                    break
+            return dict(description=m.get("description", ""), property=m["property"], status="FAILURE", trace=m["trace"], sourceLocation=loc)
+    return None
+
+
 def _run_case(case, pid, kf_defs=()):
     """Run one case. Returns dict with verdict details."""
     t0 = time.time()
@@ -363,11 +389,24 @@ def _run_case(case, pid, kf_defs=()):
     r = sh(cmd, timeout=case.timeout, mem_gb=case.mem_gb)
     info["cbmc_wall_s"] = round(r["wall"], 2)
     info["maxrss_mb"] = int(r["maxrss_kb"] / 1024)
+    fallback = False
     if r["timeout"]:
-        info.update(status="timeout", error="CBMC exceeded %ds" % case.timeout, wall_s=time.time() - t0)
-        shutil.rmtree(wd, ignore_errors=True)
-        return info
-    results, msgs, status = parse_cbmc_json(r["out"])
+        # A tree on which very many obligations fail can exhaust the time limit just enumerating them (one SAT call and
+        # one trace per failing obligation).  Before giving up, look for ONE counterexample: same query with the
+        # reachability witnesses compiled out (-DNO_WITNESS) and --stop-on-fail.  Only a natively reproduced
+        # counterexample counts (as always); if none is found the case stays a timeout.
+        fb = None
+        if os.environ.get("VERIF_TIMEOUT_FALLBACK", "1") == "1":
+            fb = _stop_on_fail(case, wd, kf_defs)
+        if fb is None:
+            info.update(status="timeout", error="CBMC exceeded %ds" % case.timeout, wall_s=time.time() - t0)
+            shutil.rmtree(wd, ignore_errors=True)
+            return info
+        fallback = True
+        info["fallback"] = "primary query exceeded %ds; counterexample from a --stop-on-fail query without witness points" % case.timeout
+        results, msgs, status = [fb], [], "failure"
+    else:
+        results, msgs, status = parse_cbmc_json(r["out"])
     solver_s = 0.0
     vcc = None
     for m in msgs:
@@ -431,7 +470,7 @@ def _run_case(case, pid, kf_defs=()):
     info["failures"] = []
     unreached = [w["label"] for w in witnesses if not w["reached"] and w["label"] not in case.optional_witness]
     if not witnesses:
-        unreached = ["<harness has no WITNESS point>"]
+        unreached = [] if fallback else ["<harness has no WITNESS point>"]
     info["vacuous"] = unreached
     # group failures by identical vin to limit replays
     exe = None
